@@ -3,8 +3,6 @@
 
 from __future__ import annotations
 
-import functools
-import operator
 from typing import TYPE_CHECKING
 
 import numpy as np
@@ -16,7 +14,7 @@ import ndonnx._opset_extensions as opx
 from ._coreimpl import CoreOperationsImpl
 from ._interface import OperationsBlock
 from ._nullableimpl import NullableOperationsImpl
-from ._utils import binary_op, unary_op, validate_core
+from ._utils import binary_op, statically_empty, unary_op, validate_core
 
 if TYPE_CHECKING:
     from ndonnx import Array
@@ -130,7 +128,7 @@ class _BooleanOperationsImpl(OperationsBlock):
     def all(self, x, *, axis=None, keepdims: bool = False):
         if isinstance(x.dtype, dtypes.NullableCore):
             x = ndx.where(x.null, True, x.values)
-        if functools.reduce(operator.mul, x._static_shape, 1) == 0:
+        if axis is None and not keepdims and statically_empty(x):
             return ndx.asarray(True, dtype=ndx.bool)
         return ndx.min(x.astype(ndx.int8), axis=axis, keepdims=keepdims).astype(
             ndx.bool
@@ -140,7 +138,7 @@ class _BooleanOperationsImpl(OperationsBlock):
     def any(self, x, *, axis=None, keepdims: bool = False):
         if isinstance(x.dtype, dtypes.NullableCore):
             x = ndx.where(x.null, False, x.values)
-        if functools.reduce(operator.mul, x._static_shape, 1) == 0:
+        if axis is None and not keepdims and statically_empty(x):
             return ndx.asarray(False, dtype=ndx.bool)
         return ndx.max(x.astype(ndx.int8), axis=axis, keepdims=keepdims).astype(
             ndx.bool
